@@ -395,6 +395,29 @@ func (c *Ctx) RangeGuard(rule string, id string, wantGuard bool) []report.Obliga
 			out = append(out, ok2(rule, key, c.P.InstrPos(cs), "maps.Copy writes every entry unconditionally: the argument's entries win"))
 		}
 	}
+	// delegation to the library's own merges on the environment the function holds: Mapping.Merge only adds absent
+	// keys, Mapping.OverrideBy / MappingWithEquals.OverrideBy replace (each is checked by this rule where it is claimed)
+	for _, cs := range callSites(f, func(com *ssa.CallCommon) bool {
+		id := c.calleeID(com)
+		return id == "types.(Mapping).Merge" || id == "types.(Mapping).OverrideBy" || id == "types.(MappingWithEquals).OverrideBy"
+	}) {
+		if f == cs.Common().StaticCallee() || loadedField(cs.Common().Args[0]) == "" {
+			continue // only a merge into a field of the object the function works on (o.Environment)
+		}
+		n++
+		key := id + " :: m[k] = v"
+		guarded := c.calleeID(cs.Common()) == "types.(Mapping).Merge"
+		switch {
+		case wantGuard && guarded:
+			out = append(out, ok2(rule, key, c.P.InstrPos(cs), "delegated to Mapping.Merge, which writes only absent keys: existing entries win"))
+		case wantGuard:
+			out = append(out, bad(rule, key, c.P.InstrPos(cs), "delegated to OverrideBy: an existing (higher-precedence) value is overwritten"))
+		case guarded:
+			out = append(out, bad(rule, key, c.P.InstrPos(cs), "delegated to Mapping.Merge, which only writes absent keys: the argument no longer wins"))
+		default:
+			out = append(out, ok2(rule, key, c.P.InstrPos(cs), "delegated to OverrideBy: the argument's entries win"))
+		}
+	}
 	if n == 0 {
 		out = append(out, bad(rule, id+" :: keyed update present", c.P.Pos(f.Pos()), "no update keyed by the iteration key found"))
 	}
